@@ -211,8 +211,17 @@ def execute(sc):
             keep.append(fn)
             mine = [cs for cs in sc['calls'] if cs.get('loop', 'L1') == name]
 
+            def hop(k, i):
+                if k <= 0:
+                    do_cancel(i)
+                else:
+                    loop.call_soon(hop, k - 1, i)
+
             def start(cs):
                 tasks[cs['i']] = loop.create_task(chained(cs, fn) if cs.get('chain') else caller(cs, fn))
+                if cs.get('cancel_iters') is not None:
+                    # cancel this caller a given number of loop iterations after it was started
+                    loop.call_soon(hop, cs['cancel_iters'], cs['i'])
             sched = []
             for cs in mine:
                 sched.append((cs['at'], start, (cs,)))
